@@ -16,14 +16,14 @@ CLAIMED = {
 }
 
 CLAIMED["C05"] = ("model_checking",
-    "TLA+ spec ConnMgr (property monitor) + ConnMgrMC (implementation-shaped manager model) checked by TLC; one behaviour per transition of the bounded model and seeded random histories replayed into the real TransportManager through a scripted transport; recorded steps validated by TLC against the monitor (and against the model for drift)",
+    "TLA+ spec ConnMgr (property monitor) + ConnMgrMC (implementation-shaped manager model) checked by TLC; one behaviour per transition of the bounded model and seeded random histories replayed into the real TransportManager through one or two scripted transports (TCP, TCP+WebSocket); recorded steps validated by TLC against the monitor (and against the model for drift); the same ledger (spec NetDial) validates logs of real 3-node networks over loopback TCP / WebSocket / QUIC driven through the public API",
     "TLC explores every interleaving of dial requests, transport outcomes, inbound connections, accept results and closures for 2 peers / 3-4 connection ids / several limit configurations on a model transcribed handler by handler from the manager; each transition of the bounded graph (plus wedge probes at quiescence) and long random histories over 3 peers are executed on the real TransportManager and every step is validated by TLC against the property-level ledger: one outcome per attempt, failures name dialed addresses, no silence at quiescence, no wedge, no panic.",
-    "legal scripted transport (TCP-like at the trait boundary); one stimulus at a time; small-scope constants; address-shape quantifier covered by the shape driver (see evidence)",
+    "legal scripted transport(s) at the trait boundary (legality of the in-tree TCP/WebSocket/QUIC transports is checked separately by ./check tcplegal, see DESIGN 10.5); one stimulus at a time; small-scope constants; address-shape quantifier covered by the shape driver (see evidence); real-network runs judge at quiescence with 8 s slack",
     "DESIGN.md 4/C05")
 CLAIMED["C06"] = ("model_checking",
     "same ConnMgr TLA+ specs and conformance pipeline as C05; the monitor's cap rules decide",
     "the property monitor counts connections from the manager's accept() call until closure and checks after every recorded step of the real TransportManager: at most 2 per peer, incoming/outgoing never above the configured maxima, pending inbound sockets refused only at the limit, and a connection from an unconnected peer is accepted whenever the node is below its limits (capacity released exactly on close / accept failure); TLC checks the same rules plus exactness of the limit sets on the bounded model.",
-    "legal scripted transport; limits in {none,0,1,2} combinations; 2 peers in TLC, 3 in random runs",
+    "legal scripted transport(s) (TCP, TCP+WebSocket); limits in {none,0,1,2} combinations incl. one-direction-only; 2 peers in TLC, 3 in random runs",
     "DESIGN.md 4/C06")
 
 CLAIMED["C10"] = ("model_checking",
@@ -33,9 +33,9 @@ CLAIMED["C10"] = ("model_checking",
     "DESIGN.md 4/C10")
 
 CLAIMED["C01"] = ("model_checking",
-  "TLA+ spec NoiseHS (symbolic Dolev-Yao Impl layer of XX + libp2p payload, Prop layer Allowed/Auth) explored completely by TLC; every scenario concretised against the real noise::handshake over an in-memory duplex with a scripted MITM (peer: real handshake, libp2p-noise, or a snow-based rogue with hand-encoded payloads), dialed-peer cases through two real Litep2p nodes over TCP; recorded outcomes validated by TLC against Allowed",
+  "TLA+ spec NoiseHS (symbolic Dolev-Yao Impl layer of XX + libp2p payload, Prop layer Allowed/Auth) explored completely by TLC; every scenario concretised against the real noise::handshake over an in-memory duplex with a scripted MITM (peer: real handshake, libp2p-noise, or a snow-based rogue with hand-encoded payloads), dialed-peer cases (none / same key / other key x inline / SHA-256 form) through two real Litep2p nodes over TCP and WebSocket and through the real negotiate_connection of both transports; recorded outcomes validated by TLC against Allowed",
   "TLC enumerates the whole symbolic scenario space (MITM corrupt/truncate/extend/substitute/replay/drop on each field of the 3 messages, 11 rogue payloads, dial expectations, 4 fragmentations) and checks Auth/NoHang/Agreement; each scenario is executed on the real code at every byte offset of the field (thorough; quick samples offsets) and each observed outcome must be allowed by the property-level verdict: ok only with exactly the proven peer, err whenever a visible byte was altered, the payload is forged/unbound, or the dialed id differs; honest runs must succeed.",
-  "ideal cryptography assumed; one MITM move or one rogue per handshake; deadlocks resolved by closing the pipe (no timers); small-order keys out of scope",
+  "ideal cryptography assumed; one MITM move or one rogue per handshake; deadlocks resolved by closing the pipe (no timers); small-order identity keys are accepted like the reference implementation does (recorded, not judged); QUIC authenticates with TLS and is outside C01",
   "DESIGN.md 4/C01, 10")
 CLAIMED["C02"] = ("model_checking",
   "TLA+ spec NoisePipe (Impl transcription of NoiseSocket poll_write/poll_flush/poll_read, scale-parametric; Prop monitor) checked by TLC unit-scaled; TLC behaviours, a systematic size/buffer/chunking/config sweep, all attack kinds and seeded random schedules executed on two real NoiseSockets (real handshake) around a scripted carrier with attacks on real ciphertext; every call validated by TLC against the Prop monitor and, at real scale, against the Impl layer",
